@@ -3,6 +3,7 @@ import Driver.ObjFmt
 import Parsley.Model.Obj
 import Parsley.Model.Bin
 import Parsley.Model.CombP
+import Driver.C15File
 namespace Driver.C15
 open Parsley Parsley.Prim Parsley.Obj Parsley.CombP Driver
 
@@ -136,7 +137,10 @@ def caseBuf (p0 : String) (s : Bytes) : Option Bytes :=
   | some f => (parseWins f).bind (window s)
 
 /-- is this parser one of the token-level ones (failure must not move the cursor)? -/
-def tokenLevel (p0 : String) : Bool := !((bare p0).startsWith "obj:")
+def tokenLevel (p0 : String) : Bool := !((bare p0).startsWith "obj:" || C15File.isFile (bare p0))
+
+/-- is the cursor after a failure part of the printed outcome? (`parse_pdf_obj`, `ObjStreamP`, `TextExtractor`: no) -/
+def errCursorShown (p0 : String) : Bool := !((bare p0).startsWith "obj:") && C15File.errCursorShown (bare p0)
 
 /-- does the re-parse clause apply?  Scanners return a skip count whose span is the skipped
     text (not a spelling of the value), so the clause is not applicable to them.  Neither is it to the
@@ -145,7 +149,7 @@ def tokenLevel (p0 : String) : Bool := !((bare p0).startsWith "obj:")
     `Parsley.C15.reparse_fails_for_positive_lookahead`, `alt_reparse_needs_failTrunc`; all other clauses apply. -/
 def reparseApplies (p0 : String) : Bool :=
   let p := bare p0
-  !(p.startsWith "scan:" || p.startsWith "cmb:lk")
+  !(p.startsWith "scan:" || p.startsWith "cmb:lk") && C15File.outerReparse p
 
 /-- `BinaryScanner` over `ParseBuffer::scan` (empty tag: `windows(0)` panics) -/
 def scanP (tag : Bytes) : P Nat := fun s i =>
@@ -162,6 +166,7 @@ def runParser (p0 : String) (s : Bytes) (i : Nat) : Option Out :=
   let u := fun (_ : Unit) => "unit"
   -- frame prefix: the implementation runs on a restricted view; by C17 the model is the same
   let p := bare p0
+  if C15File.isFile p then C15File.runFile p s i else
   match p.splitOn ":" with
   | ["wsn0"] => some (conv u (wsNoEOL false s i))
   | ["wsn1"] => some (conv u (wsNoEOL true s i))
@@ -206,7 +211,7 @@ def runParser (p0 : String) (s : Bytes) (i : Nat) : Option Out :=
 
 def showOut (p : String) : Out → String
   | (.ok v, c) => s!"ok {v.start} {v.stop} {c} {v.val}"
-  | (.err k, c) => if tokenLevel p then s!"err {k} {c}" else s!"err {k}"
+  | (.err k, c) => if errCursorShown p then s!"err {k} {c}" else s!"err {k}"
   | (.panic st, _) => s!"panic {st}"
 
 /-- case: `<parser> <hexbuf> <pos>`; output: first parse, and on success the re-parse of the span -/
@@ -216,11 +221,14 @@ def model (line : String) : String :=
     match (bytesOfHex hex).bind (caseBuf p), pos.toNat? with
     | some s, some i =>
       if i > s.length then "bad-case" else
+      if C15File.oracleOnly (bare p) then "nomodel" else
       match runParser p s i with
       | none => "bad-case"
       | some r =>
         match r with
         | (.ok v, _) =>
+          -- (a reported location that is not a range of the buffer cannot be re-parsed: the harness does not either)
+          if !(v.start ≤ v.stop && v.stop ≤ s.length) then showOut p r else
           let span := (s.drop v.start).take (v.stop - v.start)
           match runParser p span 0 with
           | some r2 => showOut p r ++ " | re " ++ showOut p r2
@@ -276,11 +284,12 @@ def valueOfSpan (p : String) (s : Bytes) (st en : Nat) (val : List String) : Opt
 
 /-- The oracle: the clauses of C15 applied to the implementation's output.  For a cut window the buffer is
     the window (`end ≤ size` means: inside the window; the span is text of the window). -/
-def judge (case impl : String) : String :=
+def judgeRaw (case impl : String) : String :=
   match words case with
   | [p, hex, pos] =>
     match (bytesOfHex hex).bind (caseBuf p), pos.toNat? with
     | some s, some i =>
+      if impl == "nomodel" then "skip" else
       let parts := impl.splitOn " | re "
       match parts with
       | first :: rest =>
@@ -288,10 +297,20 @@ def judge (case impl : String) : String :=
         | "ok" :: st :: en :: cu :: val =>
           match st.toNat?, en.toNat?, cu.toNat? with
           | some st, some en, some cu =>
-            if cu != en then s!"bad cursor-ne-end cursor={cu} end={en}"
+            -- (for the two stream parsers this clause comes after the clauses about the located parts: known finding)
+            if cu != en && !(C15File.streamLocFinding (bare p)) then s!"bad cursor-ne-end cursor={cu} end={en}"
             else if !(st ≤ en && en ≤ s.length) then s!"bad span-range {st} {en} size={s.length}"
-            else if tokenLevel p && st != i then s!"bad start-ne-cursor start={st} pos={i}"
+            else if (tokenLevel p || C15File.startsAtCursor (bare p)) && st != i then s!"bad start-ne-cursor start={st} pos={i}"
             else if !(i ≤ st) then s!"bad start-before-cursor"
+            -- the located parts of a composite value lie inside the reported span (object-stream members: inside
+            -- the content view, whose coordinates they are in)
+            else if C15File.isFile (bare p) && !(C15File.nestedInside val (C15File.partsBound (bare p) s.length st en)) then
+              "bad nested-span-outside"
+            else if !(C15File.partsOk val) then "bad member-reparse"
+            else if bare p == "xsect" && !(C15File.xsectOk val (en - st)) then "bad xref-entries-not-20-byte-tiles"
+            else if C15File.tilingApplies (bare p) && !(C15File.tiles val (C15File.partsBound (bare p) s.length st en)) then
+              "bad parts-do-not-tile-span"
+            else if cu != en then s!"bad cursor-ne-end cursor={cu} end={en}"
             else if valueOfSpan p s st en val == some false then "bad value-not-text-of-span"
             else if !reparseApplies p then "ok"
             else
@@ -315,6 +334,22 @@ def judge (case impl : String) : String :=
       | [] => "bad malformed-output"
     | _, _ => "skip"
   | _ => "skip"
+
+/-- the clauses of the outer location that the known finding C15-stream-parser-location is about -/
+def outerLocClass (p cls : String) : Bool :=
+  cls == "cursor-ne-end" || cls.startsWith "reparse-" || cls == "no-reparse-output" ||
+  (p.startsWith "xsh:" && cls == "span-range")     -- start (encoded buffer) may lie beyond end (decoded buffer)
+
+/-- The oracle.  For the two stream parsers a violation of the outer-location clauses is the known finding
+    (class `stream-location-not-a-span`); all other classes are passed through. -/
+def judge (case impl : String) : String :=
+  let v := judgeRaw case impl
+  match words case, words v with
+  | p :: _, "bad" :: cls :: rest =>
+    if C15File.streamLocFinding (bare p) && outerLocClass (bare p) cls then
+      "bad stream-location-not-a-span " ++ " ".intercalate (cls :: rest)
+    else v
+  | _, _ => v
 
 /-! ### generators -/
 
@@ -599,8 +634,98 @@ def rndCut (p : String) (S : Bytes) (c : Nat) (r : Rng) : (Nat × Nat) × Rng :=
     let (d, r) := r.nat (S.length - c + 1)
     ((a, c + d), r)
 
+/-! ### byte-class sweeps
+
+  Every token parser decides by a hand-written SET of bytes somewhere: the white space skipped inside a hex string, the
+  sets of WhitespaceEOL / WhitespaceNoEOL, the terminator / delimiter sets of names, operators and numbers, the comment
+  terminator, the bytes with a meaning after a backslash or as a parenthesis in a literal string, the EOL after `stream`.
+  The family puts EVERY byte value 0..255 at each such position, so that each of the 256 values is classified by the real
+  code and compared with the model and the oracle (a set written differently - `is_ascii_whitespace()` has no NUL,
+  `is_ascii_punctuation()` is not the delimiter set, a forgotten FF - differs on a byte value that no
+  alphabet of "typical" symbols contains).  A panic of the real parser is a `panic …` outcome: `bad panic`. -/
+
+/-- `(parsers, prefix, suffix, cursors)`: the swept byte goes between prefix and suffix -/
+def sweepSites : List (List String × String × String × List Nat) :=
+  [-- inside a hex string: between digits, alone, after an odd digit, before the closing `>`
+   (["hex", "obj:3", "cs:3", "@hex"], "<41", "42>", [0]),
+   (["hex", "obj:3", "cs:3"], "<", ">", [0]),
+   (["hex", "obj:3"], "<4", "1>", [0]),
+   (["hex", "obj:3"], "<4142", ">", [0]),
+   (["hex", "obj:3"], "<4142", "", [0]),
+   -- the single separator between two tokens
+   (["int", "real", "obj:3", "cs:3", "cmb:seqIntWsn1", "wsn0", "wsn1", "wse0", "wse1"], "12", "34", [0, 2]),
+   (["obj:3", "cs:3"], "[1", "2]", [0]),
+   (["obj:3", "name", "cs:3"], "/A", "/B", [0]),
+   (["obj:3", "bool", "cmb:seqBoolNull", "cmb:starAltBoolNull"], "true", "null", [0]),
+   (["obj:3", "trailer:3"], "<</K", "1>>", [0]),
+   (["obj:3"], "1 0", "R", [0]),
+   (["obj:3"], "1", "0 R", [0]),
+   (["ind:3"], "1 0 obj", "5 endobj", [0]),
+   (["ind:3"], "1 0 obj 5", "endobj", [0]),
+   (["sxref"], "startxref", "7", [0]),
+   (["xsect"], "xref", "0 0\n", [0]),
+   -- the byte after a name / operator / number / keyword
+   (["name", "obj:3", "cs:3"], "/Name", "x", [0]),
+   (["name", "obj:3"], "/Name", "", [0]),
+   (["op", "cs:3"], "BT", "x", [0]),
+   (["op"], "T", "", [0]),
+   (["int", "real", "obj:3", "cs:3"], "12", "", [0]),
+   (["int", "real", "obj:3", "cs:3"], "-1.5", "7", [0]),
+   (["bool", "null", "obj:3", "cs:3"], "null", "", [0]),
+   (["obj:3", "cs:3"], "true", "x", [0]),
+   -- the first byte: what every dispatcher (parse_pdf_obj, CSObjP, the token parsers) does with each value
+   (["obj:3", "cs:3", "int", "real", "name", "op", "hex", "lit", "comment", "bool", "null", "wse0", "wsn0", "te:3"], "", "1 ", [0]),
+   -- literal strings: after a backslash, as a plain byte, after an open parenthesis
+   (["lit", "obj:3", "cs:3"], "(a\\", "c)", [0]),
+   (["lit", "obj:3"], "(a\\", ")", [0]),
+   (["lit", "obj:3"], "(a", "b)", [0]),
+   (["lit", "obj:3"], "((", ")", [0]),
+   -- comments: the terminator; white space parsers on every byte, alone, after a blank, after CR (the CR LF give-back)
+   (["comment", "wse0", "wse1", "obj:3", "fhdr"], "%c", "x", [0]),
+   (["comment", "fhdr"], "%", "", [0]),
+   (["wsn0", "wsn1", "wse0", "wse1"], "", "", [0]),
+   (["wsn0", "wsn1", "wse0", "wse1"], " ", " ", [0, 1]),
+   (["wsn0", "wsn1", "wse0", "wse1", "cmb:seqIntWsn1"], "7\r", "\n", [0, 1]),
+   (["wsn0", "wsn1", "wse0", "wse1"], "\r", "", [0]),
+   -- stream data: the EOL after the keyword, the byte before `endstream`
+   (["sc:2:0", "sc:2:1"], "stream", "ab\nendstream", [0]),
+   (["sc:2:0", "sc:2:1"], "stream\r", "ab\nendstream", [0]),
+   (["sc:2:0", "sc:2:1"], "stream\nab", "endstream", [0]),
+   (["ind:3"], "1 0 obj<</Length 1>>stream\n", "\nendstream endobj", [0]),
+   -- `#` codes in names / operators: the byte after `#`, the second digit
+   (["name", "op", "obj:3"], "/A#", "1", [0]),
+   (["name", "op", "obj:3"], "/A#4", "", [0])]
+
+/-- text with `\n`, `\r`, `\\` escapes -/
+def unesc (t : String) : Bytes :=
+  let rec go : List Char → Bytes
+    | '\\' :: 'n' :: r => 10 :: go r
+    | '\\' :: 'r' :: r => 13 :: go r
+    | '\\' :: '\\' :: r => 92 :: go r
+    | c :: r => (String.singleton c).toUTF8.toList ++ go r
+    | [] => []
+  go t.toList
+
+def emitSweep (emit : String → IO Unit) (full : Bool) : IO Unit := do
+  for (ps, pre, suf, cursors) in sweepSites do
+    let pre := unesc pre
+    let suf := unesc suf
+    for b in List.range 256 do
+      let s := pre ++ [UInt8.ofNat b] ++ suf
+      let hx := hexOfBytes s
+      for p in ps do
+        for c in cursors do
+          emit s!"{p} {hx} {c}"
+        if full then
+          emit s!"@{p} {hx} 0"
+          -- the view ends right after the swept byte; the rest of the token lies behind it
+          emit s!"v0-{pre.length + 1}@{p} {hx} 0"
+
 def gen (seed n : Nat) (tier : String) (emit : String → IO Unit) : IO Unit := do
   let full := tier == "thorough"
+  emitSweep emit full
+  -- the remaining ParsleyParser implementors (Driver/C15File.lean)
+  C15File.gen seed full emit
   -- cut windows: token storages, every window around the token; exhaustive small storages, every window
   let mut ci := 0
   for tok in cutTokens do
